@@ -60,6 +60,10 @@ type scenario struct {
 	bases map[string]sdk.Context
 	tg    map[string]*target // by kind
 	tw    map[string]*target // the twin message of the kind's target, as a target of its own
+	// the same messages with the signatures collected in another order
+	// (index into orders; 0 is the default order and lives in tg / tw)
+	alt   map[int]map[string]*target
+	altTw map[int]map[string]*target
 	// facts the reference encoder needs, read from chain state (not from the verifier)
 	snapOnChain uint64 // snapshot id live on the chain in the base states
 	snapNew     uint64 // id of the freshly built snapshot
@@ -127,11 +131,29 @@ func (s *scenario) valByValAddr(addr string) *world.Val {
 	panic("no validator " + addr)
 }
 
-// progress drives every queued message of the turnstone queue to the state a
-// pigeon fleet would bring it to: estimates by all validators, end-block
-// (election + fees), signatures by all validators in the order v0,v1,v2, public
-// access data by the assignee naming the valset live on the target chain.
-func (s *scenario) progress(ctx sdk.Context) {
+// orders are the signature collection orders (validator indices): the default
+// (which is also the valset order, shares 3:2:1), reversed, one rotation, and the
+// remaining three permutations.
+var orders = [][]int{{0, 1, 2}, {2, 1, 0}, {1, 2, 0}, {0, 2, 1}, {1, 0, 2}, {2, 0, 1}}
+
+func orderName(oi int) string {
+	var p []string
+	for _, v := range orders[oi] {
+		p = append(p, fmt.Sprintf("v%d", v))
+	}
+	return strings.Join(p, ",")
+}
+
+func baseName(stem string, oi int) string {
+	if oi == 0 {
+		return stem
+	}
+	return fmt.Sprintf("%s#%d", stem, oi)
+}
+
+// estimate: every validator estimates every message that needs it, then the
+// end-block elects the estimate and attaches the fees.
+func (s *scenario) estimate(ctx sdk.Context) {
 	w := s.w
 	q := s.queue
 	need := false
@@ -152,11 +174,20 @@ func (s *scenario) progress(ctx sdk.Context) {
 	if need {
 		must(w.EndBlock(ctx))
 	}
+}
+
+// sign: the validators sign every message that still lacks their signature, in
+// the given collection order; then the assignee publishes the access data
+// naming the valset live on the target chain.
+func (s *scenario) sign(ctx sdk.Context, order []int) {
+	w := s.w
+	q := s.queue
 	for _, m := range w.Queue(ctx, q) {
 		if m.GetRequireGasEstimation() && m.GetGasEstimate() == 0 {
 			panic(fmt.Sprintf("message %d: no gas estimate elected", m.GetId()))
 		}
-		for _, v := range w.Vals {
+		for _, vi := range order {
+			v := w.Vals[vi]
 			have := false
 			for _, sd := range m.GetSignData() {
 				have = have || sdk.ValAddress(sd.ValAddress).Equals(v.ValAddr)
@@ -194,7 +225,14 @@ func (s *scenario) clone(ctx sdk.Context, id uint64) uint64 {
 	panic("clone: no message")
 }
 
-func (s *scenario) collect(ctx sdk.Context, base string) {
+func (s *scenario) collect(ctx sdk.Context, base string, oi int) {
+	tg, tw := s.tg, s.tw
+	if oi > 0 {
+		if s.alt[oi] == nil {
+			s.alt[oi], s.altTw[oi] = map[string]*target{}, map[string]*target{}
+		}
+		tg, tw = s.alt[oi], s.altTw[oi]
+	}
 	for _, m := range s.w.Queue(ctx, s.queue) {
 		em := s.evmMsg(m)
 		k := kindOf(em)
@@ -202,24 +240,24 @@ func (s *scenario) collect(ctx sdk.Context, base string) {
 		if pad := m.GetPublicAccessData(); pad != nil {
 			t.PubVS = pad.GetValsetID()
 		}
-		if old, ok := s.tg[k]; ok && old.Base == base {
+		if old, ok := tg[k]; ok && old.Base == base {
 			if old.Twin == 0 {
 				old.Twin = t.ID
-				s.tw[k] = t
+				tw[k] = t
 			}
 			continue
 		}
-		if _, ok := s.tg[k]; ok {
+		if _, ok := tg[k]; ok {
 			continue
 		}
-		s.tg[k] = t
+		tg[k] = t
 	}
 }
 
 func newScenario() *scenario {
 	cap := world.NewCapLogger("error while attesting", "recovered panic")
 	w := world.New(world.Config{Stakes: world.StakesOf(3_000_000, 2_000_000, 1_000_000), Users: []string{"U1", "adm"}, Height: 101, Logger: cap})
-	s := &scenario{w: w, cap: cap, queue: world.TurnstoneQueue(ref), bases: map[string]sdk.Context{}, tg: map[string]*target{}, tw: map[string]*target{}, chainID: 1}
+	s := &scenario{w: w, cap: cap, queue: world.TurnstoneQueue(ref), bases: map[string]sdk.Context{}, tg: map[string]*target{}, tw: map[string]*target{}, alt: map[int]map[string]*target{}, altTw: map[int]map[string]*target{}, chainID: 1}
 	ctx := w.Root
 	must(w.StdChain(ctx, ref))
 	must(w.App.EvmKeeper.SetSmartContractDeployer(ctx, ref, deployerA))
@@ -300,9 +338,13 @@ func newScenario() *scenario {
 	_, err = w.App.EvmKeeper.AddUploadSmartContractToConsensus(ctx, ref, up)
 	must(err)
 
-	s.progress(ctx)
-	s.bases["B"] = world.Fork(ctx)
-	s.collect(s.bases["B"], "B")
+	s.estimate(ctx)
+	for oi := range orders {
+		c := world.Fork(ctx)
+		s.sign(c, orders[oi])
+		s.bases[baseName("B", oi)] = c
+		s.collect(c, baseName("B", oi), oi)
+	}
 	for _, k := range []string{kSLC, kValset, kUpload, kUSC} {
 		if s.tg[k] == nil {
 			panic("missing target " + k)
@@ -344,9 +386,13 @@ func (s *scenario) buildHandoverBase(proof *evmtypes.TxExecutedProof) error {
 	}
 	s.clone(ctx, hid)
 	ctx = world.Advance(ctx, 1, 2*time.Second)
-	s.progress(ctx)
-	s.bases["H"] = world.Fork(ctx)
-	s.collect(s.bases["H"], "H")
+	s.estimate(ctx)
+	for oi := range orders {
+		c := world.Fork(ctx)
+		s.sign(c, orders[oi])
+		s.bases[baseName("H", oi)] = c
+		s.collect(c, baseName("H", oi), oi)
+	}
 	if s.tg[kHandover] == nil || s.tg[kHandover].Twin == 0 {
 		return fmt.Errorf("handover target missing")
 	}
